@@ -57,8 +57,9 @@ Definition member_types (p : proj) : list tstruct :=
   flat_map (fun d => match d with DStruct s => map m_ty (s_fields s) | DEnum _ => [] end) (p_types p) ++
   flat_map (fun c => map m_ty (c_params c)) (p_cmds p).
 Definition has_enum (p : proj) : bool := existsb (fun d => match d with DEnum _ => true | _ => false end) (p_types p).
+(* the enum class (Zod-mode enums without a type alias) was repaired: TgEnumAlias is never allowed *)
 Definition allowed_for_proj (p : proj) : list tag :=
-  add_tags (flat_map allowed_for_type (member_types p) ++ (if has_enum p then [TgEnumAlias] else [])) [].
+  add_tags (flat_map allowed_for_type (member_types p)) [].
 Definition proj_dom (p : proj) : bool :=
   map_ok (p_map p) && forallb dom (member_types p) &&
   forallb (fun c => forallb (fun ch => dom (snd ch)) (c_chans c)) (p_cmds p).
